@@ -252,4 +252,16 @@ def r8_text_determines_the_model(a, tier):
     return rep
 
 
-RULES = [r1_ebnf_vs_parser, r2_ebnf_vs_model, r3_config, r4_regeneration_literals, r5_regeneration_config, r6_optimizer, r7_generated_primitives, r8_text_determines_the_model]
+def r9_unset_is_empty(a, tier):
+    """the shipped generated parser pins namechars='' / the settings it was generated with, the model compiled from the grammar file leaves
+    them unset: the inputs must read both the same way (= C09.R2c)"""
+    from . import c09
+    rep = c09.r2c_input_configuration(a, tier)
+    rep.rule = 'C15.R9'
+    for f in rep.findings:
+        f.rule = 'C15.R9'
+    rep.text = '[= C09.R2c] ' + rep.text
+    return rep
+
+
+RULES = [r1_ebnf_vs_parser, r2_ebnf_vs_model, r3_config, r4_regeneration_literals, r5_regeneration_config, r6_optimizer, r7_generated_primitives, r8_text_determines_the_model, r9_unset_is_empty]
